@@ -7,6 +7,7 @@ package main
 
 import (
 	"bytes"
+	"crypto/sha256"
 	"fmt"
 
 	"github.com/Eyevinn/mp4ff/mp4"
@@ -44,6 +45,18 @@ func searchCopy(rng *hx.Rng, r *tbl.Raw, x *tbl.Ref, bx *boxes) {
 	lazy.SetLazyDataSize(hi - lo)
 	fm := &mp4.File{Mdat: mem}
 	fl := &mp4.File{Mdat: lazy}
+	// C09_copy_pure: CopySampleData writes no field of the File or of its mdat box
+	fileState := func(f *mp4.File, m *mp4.MdatBox) string {
+		return fmt.Sprintf("%v %v %d %d %v %d %v %x", f.Mdat == m, f.IsFragmented(), m.StartPos, len(m.Data), m.IsLazy(),
+			m.GetLazyDataSize(), m.LargeSize, sha256.Sum256(m.Data))
+	}
+	memBefore, lazyBefore := fileState(fm, mem), fileState(fl, lazy)
+	defer func() {
+		evals++
+		if a, b := fileState(fm, mem), fileState(fl, lazy); a != memBefore || b != lazyBefore {
+			fail("File.CopySampleData", "file-state-changed", r, "cp", a+" | "+b, memBefore+" | "+lazyBefore)
+		}
+	}()
 	pairs := [][2]int{{1, x.N}}
 	for k := 0; k < 6; k++ {
 		a := rng.Range(1, x.N)
